@@ -8,6 +8,7 @@ import (
 	"context"
 	"fmt"
 	"sync"
+	"time"
 
 	"github.com/ipfs/boxo/path"
 	blocks "github.com/ipfs/go-block-format"
@@ -37,6 +38,8 @@ type memDag struct {
 	removed []cid.Cid // every Remove call
 	fault   map[cid.Cid]faultKind
 	failAdd bool      // while set, Add stores nothing and returns an error (store outage)
+	failPin bool      // while set, Pin().Add fails although the block is stored (pinning service down)
+	stall   string    // "ctx": Add abandons the put when the caller's context ends (and waits for that); "slow": Add takes 2.5 s
 	refused []cid.Cid // blocks whose Add was refused because of failAdd
 	pins    []cid.Cid // every Pin().Add call whose block is in the store
 	// onAdd is called (outside the lock) after a block was stored
@@ -55,6 +58,18 @@ func (m *memDag) Add(ctx context.Context, n ipld.Node) error {
 		m.refused = append(m.refused, n.Cid())
 		m.mu.Unlock()
 		return fmt.Errorf("injected write failure for %s", n.Cid())
+	}
+	switch m.stall {
+	case "ctx":
+		// a store that is stuck and gives the put up when the caller's context ends
+		m.refused = append(m.refused, n.Cid())
+		m.mu.Unlock()
+		<-ctx.Done()
+		return ctx.Err()
+	case "slow":
+		m.mu.Unlock()
+		time.Sleep(2500 * time.Millisecond)
+		m.mu.Lock()
 	}
 	if _, ok := m.blocks[n.Cid()]; !ok {
 		m.order = append(m.order, n.Cid())
@@ -206,6 +221,9 @@ func (p *memPin) Add(ctx context.Context, pth path.Path, _ ...options.PinAddOpti
 	defer p.d.mu.Unlock()
 	if _, ok := p.d.blocks[c]; !ok {
 		return fmt.Errorf("cannot pin %s: block not found", c)
+	}
+	if p.d.failPin {
+		return fmt.Errorf("injected pin failure for %s", c)
 	}
 	p.d.pins = append(p.d.pins, c)
 	return nil
